@@ -284,6 +284,9 @@ func RunCase(r *vh.Run, c Case, sample bool) {
 	if s.Blocked {
 		r.Count("sessions_with_blocked_data", 1)
 	}
+	if s.GatedGrants > 0 {
+		r.Count("gated_grants", int64(s.GatedGrants))
+	}
 	if sample {
 		r.Sample(map[string]interface{}{"case": c, "plan": pl.Describe(12), "frames_observed": s.Events, "bytes_compared": s.BytesCompared})
 	}
